@@ -22,6 +22,11 @@ def _subst(node, table):
 
 
 def generate(repo):
+    """Name-agnostic reading of get_line_confidence: the extended alignment A is the variable assigned from
+    np.concatenate([<aligned letters>, [<sentinel>]]); the loop over the labels has an index variable i (from enumerate or
+    range(len(labels))); the window's lower border LB starts at the constant 0 before the loop and is set to the upper border NB
+    by a plain copy `LB = NB` inside the loop; NB's defining expression (helper assignments such as `frame = A[i]` inlined) is
+    translated with A[i] -> a, A[i + 1] -> a2.  Renaming or introducing helper variables does not disturb the translation."""
     src = open(os.path.join(repo, SRC)).read()
     tree = ast.parse(src)
     fn = find_function(tree, 'get_line_confidence')
@@ -29,25 +34,87 @@ def generate(repo):
     if len(loops) != 1:
         raise Unsupported('expected one for-loop over the labels in get_line_confidence')
     loop = loops[0]
-    if ast.unparse(loop.target) != '(i, label)' or ast.unparse(loop.iter) != 'enumerate(labels)':
-        raise Unsupported('loop header is not `for i, label in enumerate(labels)`')
-    nb = [st for st in loop.body if isinstance(st, ast.Assign) and len(st.targets) == 1 and ast.unparse(st.targets[0]) == 'next_border']
-    if len(nb) != 1:
-        raise Unsupported('expected exactly one assignment to next_border in the loop')
-    # the window of character i is probs[last_border:next_border], and last_border = next_border afterwards
-    body_txt = [ast.unparse(st) for st in loop.body]
-    if 'pos_probs = probs[last_border:next_border]' not in body_txt or 'last_border = next_border' not in body_txt:
-        raise Unsupported('window is not probs[last_border:next_border] / last_border is not advanced to next_border')
-    e_border = _subst(nb[0].value, {'alignment[i]': 'a', 'alignment[i + 1]': 'a2'})
-    al = [st for st in fn.body if isinstance(st, ast.Assign) and len(st.targets) == 1 and ast.unparse(st.targets[0]) == 'alignment']
-    if len(al) != 1:
-        raise Unsupported('expected one assignment to alignment')
-    v = al[0].value
-    if not (isinstance(v, ast.Call) and ast.unparse(v.func) == 'np.concatenate' and len(v.args) == 1 and isinstance(v.args[0], ast.List)
-            and len(v.args[0].elts) == 2 and ast.unparse(v.args[0].elts[0]) == 'aligned_letters' and isinstance(v.args[0].elts[1], ast.List)
-            and len(v.args[0].elts[1].elts) == 1):
-        raise Unsupported('alignment is not np.concatenate([aligned_letters, [<sentinel>]])')
-    e_sent = _subst(v.args[0].elts[1].elts[0], {'log_probs.shape[0]': 'T'})
+    before0 = fn.body[:fn.body.index(loop)]
+    pre0 = {st.targets[0].id: st.value for st in before0
+            if isinstance(st, ast.Assign) and len(st.targets) == 1 and isinstance(st.targets[0], ast.Name)}
+    it = ast.unparse(loop.iter)
+    rng_arg = None
+    if isinstance(loop.iter, ast.Call) and isinstance(loop.iter.func, ast.Name) and loop.iter.func.id == 'range' and len(loop.iter.args) == 1:
+        a0 = loop.iter.args[0]
+        rng_arg = ast.unparse(pre0[a0.id]) if isinstance(a0, ast.Name) and a0.id in pre0 else ast.unparse(a0)
+    if it == 'enumerate(labels)' and isinstance(loop.target, ast.Tuple) and isinstance(loop.target.elts[0], ast.Name):
+        idx = loop.target.elts[0].id
+    elif rng_arg == 'len(labels)' and isinstance(loop.target, ast.Name):
+        idx = loop.target.id
+    else:
+        raise Unsupported('loop header is neither `for i, label in enumerate(labels)` nor `for i in range(len(labels))`')
+    before = fn.body[:fn.body.index(loop)]
+    A = sent = None
+    zero_vars = set()
+    for st in before:
+        if isinstance(st, ast.Assign) and len(st.targets) == 1 and isinstance(st.targets[0], ast.Name):
+            v = st.value
+            if isinstance(v, ast.Call) and ast.unparse(v.func) == 'np.concatenate' and len(v.args) == 1 and isinstance(v.args[0], ast.List) \
+                    and len(v.args[0].elts) == 2 and isinstance(v.args[0].elts[1], ast.List) and len(v.args[0].elts[1].elts) == 1:
+                A, sent = st.targets[0].id, v.args[0].elts[1].elts[0]
+            if isinstance(v, ast.Constant) and v.value == 0 and not isinstance(v.value, bool):
+                zero_vars.add(st.targets[0].id)
+    if A is None:
+        raise Unsupported('alignment is not np.concatenate([<aligned letters>, [<sentinel>]])')
+    pre_assigns = {st.targets[0].id: st.value for st in before
+                   if isinstance(st, ast.Assign) and len(st.targets) == 1 and isinstance(st.targets[0], ast.Name)}
+    assigns, order = {}, []
+    copies = []
+    for st in loop.body:
+        if isinstance(st, ast.Assign) and len(st.targets) == 1 and isinstance(st.targets[0], ast.Name):
+            name = st.targets[0].id
+            if isinstance(st.value, ast.Name) and name in zero_vars:
+                copies.append((name, st.value.id))
+                continue
+            if name in assigns:
+                raise Unsupported('a loop variable is assigned twice: ' + name)
+            assigns[name] = st.value
+            order.append(name)
+    if len(copies) != 1:
+        raise Unsupported('expected exactly one `<lower border> = <upper border>` copy in the loop')
+    NB = copies[0][1]
+    if NB not in assigns:
+        raise Unsupported('upper border %s is not computed in the loop' % NB)
+
+    def inline(node, upto, depth=0):
+        class Sub(ast.NodeTransformer):
+            def visit_Name(self, n):
+                if n.id in assigns and n.id != NB and order.index(n.id) < upto and depth < 6:
+                    return inline(assigns[n.id], order.index(n.id), depth + 1)
+                return n
+        return Sub().visit(copy.deepcopy(node))
+    e_border = inline(assigns[NB], order.index(NB))
+    e_border = _subst(e_border, {'%s[%s]' % (A, idx): 'a', '%s[%s + 1]' % (A, idx): 'a2'})
+    free = {n.id for n in ast.walk(e_border) if isinstance(n, ast.Name)} - {'a', 'a2'}
+    if free:
+        raise Unsupported('border expression depends on %s' % sorted(free))
+    # sentinel: inline names bound before the loop (e.g. a named constant), `<x>.shape[0]` -> T
+    def inlinable(v):
+        return not isinstance(v, ast.Call) or (isinstance(v.func, ast.Name) and v.func.id in ('max', 'min'))
+
+    def inline_pre(node, depth=0):
+        class Sub(ast.NodeTransformer):
+            def visit_Name(self, n):
+                if n.id in pre_assigns and n.id != A and depth < 4 and inlinable(pre_assigns[n.id]):
+                    return inline_pre(pre_assigns[n.id], depth + 1)
+                return n
+        return Sub().visit(copy.deepcopy(node))
+    e_sent = inline_pre(sent)
+
+    class Shape(ast.NodeTransformer):
+        def visit_Subscript(self, n):
+            if isinstance(n.value, ast.Attribute) and n.value.attr == 'shape' and isinstance(n.value.value, ast.Name) \
+                    and isinstance(n.slice, ast.Constant) and n.slice.value == 0:
+                return ast.Name(id='T', ctx=ast.Load())
+            return self.generic_visit(n)
+    e_sent = Shape().visit(e_sent)
+    nb = [type('X', (), {'value': assigns[NB]})()]
+    v = [st.value for st in before if isinstance(st, ast.Assign) and len(st.targets) == 1 and getattr(st.targets[0], 'id', None) == A][0]
     tr = Tr({'a': 'a', 'a2': 'a2', 'T': 'T'}, [])
     border = tr.ex(e_border)
     sent = tr.ex(e_sent)
